@@ -39,6 +39,7 @@ import (
 // transactions and a scripted fake engine.  Every block is decomposed, for the model, into the same
 // operation vocabulary as layer K: a.blockstart, hook.lock.begin, tx.ethblock, tx.*, a.end.
 type appStream struct {
+	deadHalts int // consecutive blocks that failed without a scripted engine fault
 	*worldStream
 	sim     *appsim.Sim
 	rel     *relayerStream
@@ -310,7 +311,7 @@ func (s *appStream) signRelayerTx(r *tr.Rng, o *tr.Op, height int64, seqUsed map
 	// a replayed operation carries the ante arguments of its first use: drop them
 	var kept [][2]string
 	for _, kv := range o.Args {
-		if !anteKeys[kv[0]] || (kv[0] == "time" && (o.Kind == "tx.accept" || o.Kind == "tx.newvoter")) {
+		if !anteKeys[kv[0]] { // "time" included: in the application the handler sees the block time, not the generator's clock
 			kept = append(kept, kv)
 		}
 	}
@@ -622,7 +623,7 @@ func (s *appStream) genBlock(r *tr.Rng) {
 		// is an error, never a crash)
 		m := clonePayload(eb.Payload)
 		var mp *goatmod.ExecutionPayload = m
-		sel := r.Intn(pick(malformed, 16, 30))
+		sel := r.Intn(pick(malformed, 18, 30))
 		if s.profile == "app-guard" && r.Chance(50) {
 			sel = 11 + r.Intn(2) // the guard's timeout-height rule for the execution-block message
 		}
@@ -660,6 +661,20 @@ func (s *appStream) genBlock(r *tr.Rng) {
 				if sel == 13 {
 					m.ExtraData[0] = byte(n - k)
 				}
+			}
+		case 15: // an invented system transaction after the due ones, counted in the header
+			extra := append([]byte{}, r.Bytes(40+r.Intn(60))...)
+			if n := len(m.Transactions); n > 0 && r.Bool() {
+				extra = append([]byte{}, m.Transactions[n-1]...) // a copy of the last due one (duplicate delivery)
+			}
+			ethCls, m.Transactions = "/systx-extra", append(append([][]byte{}, m.Transactions...), extra)
+			m.ExtraData[0]++
+		case 16, 17: // right parent hash, but not the next number
+			ethCls = "/number-gap"
+			if sel == 16 {
+				m.BlockNumber += uint64(1 + r.Intn(3))
+			} else if m.BlockNumber > 0 {
+				m.BlockNumber--
 			}
 		case 11: // the execution-block message is admissible only with timeout height == block height
 			ethCls, ethTimeout = "/timeout-unset", 0
@@ -718,7 +733,7 @@ func (s *appStream) genBlock(r *tr.Rng) {
 	nextTime := sim.NextTime()
 	if s.processed {
 		// a rejected proposal cancels its in-flight newPayload RPC: let the engine finish recording it
-		time.Sleep(3 * time.Millisecond)
+		sim.EngineBarrier()
 		s.processed = false
 	}
 	sim.Engine.ResetCalls()
@@ -817,10 +832,27 @@ func (s *appStream) genBlock(r *tr.Rng) {
 	if halt {
 		s.emit(end, "halt eng="+tr.StrList(eng)+" ;; "+world.Classify(ferr))
 		sim.Engine.ClearFaults()
+		scripted := newStatus == "ERROR" || newStatus == "INVALID" || fcuStatus == "ERROR" || fcuStatus == "INVALID"
+		if !scripted {
+			s.deadHalts++
+		}
+		if s.deadHalts >= 2 {
+			// block processing fails without any engine fault, twice in a row: this chain is dead (a real network would
+			// have halted for good); the history is over, the stream goes on with a fresh chain
+			s.deadHalts = 0
+			sim.Close()
+			if s.twin != nil {
+				s.twin.Close()
+				s.twin = nil
+			}
+			s.started = false
+			return
+		}
 		if err := sim.Restart(); err != nil {
 			panic(err)
 		}
 	} else {
+		s.deadHalts = 0
 		var ss []string
 		for _, u := range resp.ValidatorUpdates {
 			ss = append(ss, fmt.Sprintf("%x|%d", u.PubKey.GetSecp256K1(), uint64(u.Power)))
@@ -930,18 +962,11 @@ func (s *appStream) genProcess(r *tr.Rng, proposerIdx int, ethTx []byte, ptxs []
 		callsBefore := len(sim.Engine.Calls())
 		acc, err := sim.Process(comet, txs)
 		if !acc {
-			// a rejection cancels the in-flight newPayload RPC of the sibling verification goroutine: let it land
-			// before anything else talks to the engine (otherwise it shows up in a later block's call log)
-			reason := world.Classify(fmt.Errorf("%s", sim.RejectReason()))
-			switch reason {
-			case "tx-root", "tx-length", "tx-mismatch", "bridge-tx-mismatch", "locking-tx-mismatch", "goat-tx-count":
-				for w := 0; w < 150 && len(sim.Engine.Calls()) == callsBefore; w++ {
-					time.Sleep(2 * time.Millisecond)
-				}
-				time.Sleep(time.Millisecond)
-			default:
-				time.Sleep(2 * time.Millisecond)
-			}
+			// a rejection cancels the in-flight newPayload RPC of the sibling verification goroutine: make sure it has
+			// landed before anything else talks to the engine (otherwise it shows up in a later block's call log or
+			// swallows a fault scripted for the next call)
+			_ = callsBefore
+			sim.EngineBarrier()
 		}
 		sim.Engine.ClearFaults()
 		honest := cls == "honest" && baseHonest // a deliberately defective execution-block message is not an honest build
@@ -987,7 +1012,7 @@ func (s *appStream) genProcess(r *tr.Rng, proposerIdx int, ethTx []byte, ptxs []
 		cls, comet, msgProp, status, future := "", val.ConsAddr, []byte(val.ConsAddr), "VALID", false
 		txs, k, a := honest, hk, ha
 		mutatePayload := true
-		sel := r.Intn(22)
+		sel := r.Intn(24)
 		switch sel {
 		case 0:
 			cls, m.ParentHash = "wrong-parent", flip(m.ParentHash)
@@ -1070,6 +1095,15 @@ func (s *appStream) genProcess(r *tr.Rng, proposerIdx int, ethTx []byte, ptxs []
 			}
 		case 19:
 			cls, m.BlobGasUsed = "blob-gas", 1
+		case 22:
+			extra := append([]byte{}, r.Bytes(40+r.Intn(60))...)
+			if n := len(m.Transactions); n > 0 && r.Bool() {
+				extra = append([]byte{}, m.Transactions[n-1]...)
+			}
+			cls, m.Transactions = "systx-extra", append(append([][]byte{}, m.Transactions...), extra)
+			m.ExtraData[0]++
+		case 23:
+			cls, m.BlockNumber = "number-gap", m.BlockNumber+uint64(2+r.Intn(3))
 		case 20, 21:
 			if n := len(m.Transactions); n > 0 {
 				k := 1 + r.Intn(n)
@@ -1087,6 +1121,21 @@ func (s *appStream) genProcess(r *tr.Rng, proposerIdx int, ethTx []byte, ptxs []
 			a = append([]string{"1"}, a[1:]...) // re-signed with the right timeout height
 		}
 		run(cls, comet, txs, k, a, m, msgProp, status, future)
+	}
+	// two execution-block messages bundled in one later transaction, signed by the consensus proposer (it passes the
+	// ante chain in process mode: both messages are the allowed block message with the right timeout height)
+	if baseHonest && r.Chance(35) {
+		if acc := sim.App.AccountKeeper.GetAccount(sim.ReadCtx(), sdk.AccAddress(val.ConsAddr)); acc != nil {
+			seq := acc.GetSequence() + 1
+			second := clonePayload(pl)
+			second.BlockNumber++
+			third := clonePayload(pl)
+			third.BlockNumber += 2
+			msgs := []sdk.Msg{&goatmod.MsgNewEthBlock{Proposer: val.AddrStr, Payload: second}, &goatmod.MsgNewEthBlock{Proposer: val.AddrStr, Payload: third}}
+			if raw, err := sim.SignTx(val.Priv, msgs, appsim.TxOpts{GasLimit: 1e8, TimeoutHeight: uint64(height), SeqOverride: &seq}); err == nil {
+				run("bundled-ethblocks-in-later-tx", val.ConsAddr, [][]byte{ethTx, raw}, []string{"eth", "eth+"}, []string{tr.B(ethAnteOk), "1"}, pl, val.ConsAddr, "VALID", false)
+			}
+		}
 	}
 	// a second execution-block message hidden behind a relayer message inside a later transaction.  It can
 	// pass the ante chain only when one account is both the consensus proposer and the relayer proposer.
